@@ -31,7 +31,7 @@ ASSUMPTIONS = ['one pre-emption per schedule, B runs to completion in the gap: t
 TIMEOUT = {'quick': 900, 'thorough': 5400}
 QUICK_CLASSES = ['XMLWords', 'XMLNote', 'XMLPitch', 'XMLMeasure', 'XMLPart', 'XMLScorePartwise', 'XMLDirective', 'XMLBarline',
                  'XMLAccidental', 'XMLFermata', 'XMLLyric', 'XMLMetronome', 'XMLTimeModification', 'XMLCreditWords',
-                 'XMLArticulations', 'XMLStaffDetails']
+                 'XMLArticulations', 'XMLSound']
 
 
 def plan(tier, seed):
@@ -50,8 +50,9 @@ def plan(tier, seed):
     return out
 
 
-def scenario_spec(cn):
-    """what the first use of a class does, derived from the reference model only (no library call)"""
+def scenario_spec(cn, variant='first'):
+    """what the first use of a class does, derived from the reference model only (no library call).
+    variant='last' takes the last valid plain form of every attribute / value (for unions: the other member type)"""
     from musicxml.util.core import convert_to_xml_class_name
     name = next(n for n in ref.ELEMENT_NAMES if convert_to_xml_class_name(n) == cn)
     t = ref.eltype(name)
@@ -61,9 +62,11 @@ def scenario_spec(cn):
         for an, at, req in ref.attr_table(t):
             if at is None or an == 'name':
                 continue
-            forms = [f for f in ref.valid_forms(at) if ref.valid(at, f) and f == f.strip() and f]
-            if forms and (req or len(spec['attrs']) < 3):
-                spec['attrs'].append((an, forms[0]))
+            forms = [f for f in ref.valid_forms(at) if ref.valid(at, f) and f == f.strip() and f and len(f) < 12]
+            is_union = ref.primitive(at) == 'union'
+            if forms and (req or is_union or len([a for a in spec['attrs'] if not a[2]]) < 3):
+                spec['attrs'].append((an, forms[0] if variant == 'first' else forms[-1], req or is_union))
+        spec['attrs'] = [(a, f) for a, f, keep in spec['attrs']][:8]
         if t in ref.DFAS:
             for s in ref.shortest_word(t):
                 ct = ref.eltype(s)
@@ -73,7 +76,8 @@ def scenario_spec(cn):
     else:
         sb = t
     if sb:
-        spec['values'] = [f for f in ref.valid_forms(sb) if ref.valid(sb, f) and f == f.strip() and f][:3] or ['']
+        vals = [f for f in ref.valid_forms(sb) if ref.valid(sb, f) and f == f.strip() and f and len(f) < 12]
+        spec['values'] = (vals[:3] if variant == 'first' else vals[::-1][:3]) or ['']
     return spec
 
 
@@ -293,6 +297,10 @@ def run_shard(shard, tier, seed):
     inc = incomplete_spec(specA)
     if inc is not None:
         families.append(('incomplete-B', inc))
+    # B uses other valid values than A (for union-typed attributes: the other member type, e.g. a number instead of a token)
+    alt = scenario_spec(cn, 'last')
+    if alt['attrs'] != specA['attrs'] or alt['values'] != specA['values']:
+        families.append(('other-values-B', alt))
     windows = collections.Counter()
     for fam, specB in families:
         refA = in_child(lambda: list(do_scenario(specA)))
